@@ -63,8 +63,9 @@ class DetectVarNames( ast.NodeVisitor ):
 
       if low is not None and up is not None:
         slices.append( slice(low, up) )
-      # FIXME
-      # else:
+      else:
+        # s.x[ s.a : s.a+2 ]: some part of the signal, like a variable index
+        slices.append( "*" )
 
       nodelist.append( node )
       node = node.value
@@ -165,8 +166,9 @@ class DetectVarNames( ast.NodeVisitor ):
 
       if low is not None and up is not None:
         slices.append( slice(low, up) )
-      # FIXME
-      # else:
+      else:
+        # s.x[ s.a : s.a+2 ]: some part of the signal, like a variable index
+        slices.append( "*" )
 
       nodelist.append( node )
       node = node.value
